@@ -1089,6 +1089,10 @@ package mcp
 //@   requires s != nil
 //@   modifies *
 //@   ensures @closed-once at(locked, s.done) != nil ==> at(unlocked, s.done) == nil && closed(at(locked, s.done))
+// Closing the response only ends the exchange's body: the exchange stays the stream's owner (the writer is kept)
+// until its handler releases the stream, so a resume that arrives before that is refused (409) instead of being
+// accepted and then detached by the old handler's release. The close event names the retry delay and nothing else.
+//@   ensures @closing-does-not-give-up-the-exchange at(unlocked, s.w) == at(locked, s.w) && at(unlocked, s.lastIdx) == at(locked, s.lastIdx) && at(unlocked, s.requests) == at(locked, s.requests)
 //@ func (*stream).release [C08, C10]
 //@   requires s != nil
 //@   ensures @stream-is-free-for-resumption at(unlocked, s.w) == nil && at(unlocked, s.done) == nil
